@@ -90,7 +90,7 @@ def load_known(pid):
 def sig_known(sig, known):
     for f in known:
         for k in f.get("signatures", []):
-            if k == sig or (k.endswith("*") and sig.startswith(k[:-1])):
+            if k == sig or re.fullmatch(".*".join(re.escape(part) for part in k.split("*")), sig, re.S):
                 return f
     return None
 
@@ -109,12 +109,14 @@ def run_worker(binary, sub, spec, seed, worker, outdir, knownfile, tier):
     if "max_seconds" in cfg:
         cmd += ["--max-seconds", str(cfg["max_seconds"])]
     cmd += ["--workers", str(cfg.get("workers", 1))]
+    if os.environ.get("VERIF_COLLECT"):
+        cmd += ["--collect"]
     for k, v in cfg.get("params", {}).items():
         cmd += ["--param", "%s=%s" % (k, v)]
     env = dict(os.environ)
     env["ASAN_OPTIONS"] = "detect_leaks=%d:abort_on_error=1:handle_abort=%d:allocator_may_return_null=1:detect_stack_use_after_return=0:malloc_context_size=4%s" % (
         1 if spec.get("leaks") else 0, 1 if engine == "fuzz" else 0, spec.get("asan_extra", ""))
-    env["UBSAN_OPTIONS"] = "print_stacktrace=1:halt_on_error=1"
+    env["UBSAN_OPTIONS"] = "print_stacktrace=1:halt_on_error=1:abort_on_error=1"
     env["QT_LOGGING_RULES"] = "*.debug=false;*.info=false;*.warning=false"
     env["QT_FATAL_WARNINGS"] = "0"
     if spec.get("lsan_suppressions"):
@@ -155,8 +157,8 @@ def replay_once(binary, path, knownfile, sub=None, leaks=False):
     if sub:
         cmd += ["--sub", sub]
     env = dict(os.environ)
-    env["ASAN_OPTIONS"] = "detect_leaks=%d:abort_on_error=1:allocator_may_return_null=1" % (1 if leaks else 0)
-    env["UBSAN_OPTIONS"] = "print_stacktrace=1:halt_on_error=1"
+    env["ASAN_OPTIONS"] = "detect_leaks=%d:abort_on_error=1:allocator_may_return_null=1:alloc_dealloc_mismatch=0" % (1 if leaks else 0)
+    env["UBSAN_OPTIONS"] = "print_stacktrace=1:halt_on_error=1:abort_on_error=1"
     env["QT_LOGGING_RULES"] = "*.debug=false;*.info=false;*.warning=false"
     try:
         r = subprocess.run(cmd, stdout=subprocess.PIPE, stderr=subprocess.STDOUT, env=env, timeout=600, text=True, errors="replace")
@@ -209,6 +211,13 @@ def run_check(pid, tier, seed):
             for s in k.get("signatures", []):
                 f.write(s + "\n")
 
+    if P.get("seeds"):
+        import seeds as seedmod
+        docs = seedmod.harvest(REPO)
+        seedfile = os.path.join(BUILD, "seeds.json")
+        json.dump(docs, open(seedfile, "w"), ensure_ascii=False)
+        os.environ["VERIF_SEEDS"] = seedfile
+        log("harvested %d seed documents from %s/tests" % (len(docs), REPO))
     jobs = []
     for spec in P["subs"]:
         if tier not in spec:
@@ -230,6 +239,7 @@ def run_check(pid, tier, seed):
     per_sub = {}
     notes = {}
     failures = []   # (sub, sig, msg, replay path, binary)
+    collected_all = {}
     inconclusive = []
     specs = {s["name"]: s for s in P["subs"]}
     for r in results:
@@ -265,6 +275,9 @@ def run_check(pid, tier, seed):
                 h = int(hashlib.sha256(r["sub"].encode()).hexdigest()[:12], 16)
                 for (v,) in struct.iter_unpack("<Q", raw[: len(raw) // 8 * 8]):
                     fps.add(v ^ h)
+            for k, v in st.get("collected", {}).items():
+                if k not in collected_all:
+                    collected_all[k] = v
             if st.get("failure"):
                 failures.append({"sub": r["sub"], "sig": st["failure"]["sig"], "msg": st["failure"]["msg"], "replay": st["failure"]["replay"]})
         text = ""
@@ -372,6 +385,8 @@ def run_check(pid, tier, seed):
         json.dump(ev, o, indent=1, ensure_ascii=False)
         o.write("\n")
 
+    for k, v in sorted(collected_all.items()):
+        print("COLLECTED sig=%s :: %s" % (k, v.replace("\n", " | ")[:700]))
     for k in known:
         hits = sum(v for s, v in known_hits.items() if sig_known(s, [k]))
         print("KNOWN-FINDING: property=%s %s [%s; seen %d times in this run]" % (pid, k["what"], k["id"], hits))
@@ -397,6 +412,12 @@ def run_replay(pid, path):
         for k in known:
             for s in k.get("signatures", []):
                 f.write(s + "\n")
+    if P.get("seeds"):
+        seedfile = os.path.join(BUILD, "seeds.json")
+        if not os.path.exists(seedfile):
+            import seeds as seedmod
+            json.dump(seedmod.harvest(REPO), open(seedfile, "w"), ensure_ascii=False)
+        os.environ["VERIF_SEEDS"] = seedfile
     rc, out = replay_once(P["binary"], path, knownfile)
     sys.stdout.write(out)
     if rc != 0:
